@@ -51,6 +51,9 @@ def lib():
 
             def process_task(self):
                 L.log.append((self.ident, VC.clk.now))
+                if getattr(self, "rearm", None):
+                    # a task that puts itself back on the schedule from inside its own firing
+                    self.install_task(delta=self.rearm.pop(0))
                 if self.boom:
                     raise RuntimeError("task %s raises" % self.ident)
 
@@ -117,9 +120,12 @@ def model_ops(ops):
     pending = {}          # task -> (time, seq)
     last_time = {}
     log = []
+    rearm = {}
     for op in ops:
         k = op[0]
-        if k == "at":
+        if k == "rearm":
+            rearm[op[1]] = list(op[2])
+        elif k == "at":
             pending[op[1]] = (float(op[2]), seq)
             last_time[op[1]] = float(op[2])
             seq += 1
@@ -143,6 +149,10 @@ def model_ops(ops):
                 now = max(now, tt)
                 log.append((t, now))
                 del pending[t]
+                if rearm.get(t):
+                    pending[t] = (now + rearm[t].pop(0), seq)
+                    last_time[t] = pending[t][0]
+                    seq += 1
             now = target
     return log
 
@@ -153,7 +163,9 @@ def run_ops(ops, ntasks, loop):
     tasks = [L.T(i) for i in range(ntasks)]
     for op in ops:
         k = op[0]
-        if k == "at":
+        if k == "rearm":
+            tasks[op[1]].rearm = list(op[2])
+        elif k == "at":
             tasks[op[1]].install_task(when=float(op[2]))
         elif k == "after":
             tasks[op[1]].install_task(delta=op[2])
@@ -261,6 +273,54 @@ def check_recurring(interval_ms, offset_ms, t0_ms, nslots, loop):
     return []
 
 
+def check_recurring2(phases, loop):
+    """the SAME recurring task installed several times: phases = [[interval ms or None, offset ms or None, run for ms], ...];
+    None keeps the value of the previous installation (offset 0 is a value, not 'keep')"""
+    L = lib()
+    reset()
+    cur_i, cur_o = None, 0
+    now = Fraction(0)
+    slots = []
+    r = None
+    try:
+        for pi, (iv, off, run_ms) in enumerate(phases):
+            if iv is not None:
+                cur_i = Fraction(iv).limit_denominator(10 ** 6)
+            if off is not None:
+                cur_o = Fraction(off).limit_denominator(10 ** 6)
+            end = now + Fraction(run_ms) / 1000
+            # keep the end of the phase off every slot
+            while abs(float((end * 1000 - cur_o) / cur_i) - round(float((end * 1000 - cur_o) / cur_i))) < 1e-3:
+                end += cur_i / 8000
+            k = int((now * 1000 - cur_o) / cur_i) - 1
+            while True:
+                sl = (k * cur_i + cur_o) / 1000
+                if sl > end:
+                    break
+                if sl > now:
+                    slots.append(sl)
+                k += 1
+            if r is None:
+                r = L.Rec(float(iv), float(off) if off else None)
+                L.jc.now = float(now)
+                r.install_task()
+            else:
+                r.install_task(interval=float(iv) if iv is not None else None, offset=float(off) if off is not None else None)
+            advance(loop, float(end - now))
+            now = end
+        r.suspend_task()
+    except Exception as err:
+        return [("rec2:%s:raised:%s" % (loop, type(err).__name__), "phases %r raised %r" % (phases, err))]
+    got = [t for _, t in L.log]
+    if len(got) != len(slots):
+        kind = "double-or-extra" if len(got) > len(slots) else "skipped-slot"
+        return [("rec2:%s:%s" % (loop, kind), "phases %r: %d firings %r for %d slots %r" % (phases, len(got), got[:10], len(slots), [float(x) for x in slots[:10]]))]
+    for g, sl in zip(got, slots):
+        if abs(g - float(sl)) > 1e-4:
+            return [("rec2:%s:off-slot" % loop, "phases %r: fired at %r, slot is %r (all %r vs %r)" % (phases, g, float(sl), got[:8], [float(x) for x in slots[:8]]))]
+    return []
+
+
 # ---- (3) deferred batches ----------------------------------------------------------------------------------
 
 def check_deferred(n, raise_mask, defer_mask, loop, child_raise_mask=0):
@@ -340,6 +400,8 @@ def _judge(case):
     k = case["k"]
     if k == "ops":
         return Verdict(check_ops(case["ops"], case.get("ntasks", 4), case.get("loop", "once")), ops_nontrivial(case["ops"]), ("ops:" + case.get("loop", "once"),))
+    if k == "rec2":
+        return Verdict(check_recurring2(case["phases"], case.get("loop", "once")), True, ("rec:re-installed",))
     if k == "rec":
         return Verdict(check_recurring(case["interval"], case["offset"], case["t0"], case.get("nslots", 12), case.get("loop", "once")), True, ("rec",))
     if k == "def":
@@ -387,6 +449,10 @@ def plan(tier, seed):
                               loops=["once", "run"] if name != "two-small" else ["once"]))
     for i in range(4):
         specs.append(dict(name="ops-random-%d" % i, kind="opsrandom", n=150 if tier == "quick" else 1500))
+    for i, nt in enumerate((8, 16, 6, 12)):
+        specs.append(dict(name="ops-deep-%d" % nt, kind="opsdeep", ntasks=nt, n=150 if tier == "quick" else 2000))
+    specs.append(dict(name="ops-rearm", kind="opsrearm", tier=tier))
+    specs.append(dict(name="recurring-reinstalled", kind="rec2", tier=tier))
     specs.append(dict(name="recurring", kind="rec", tier=tier))
     specs.append(dict(name="recurring-random", kind="recrandom", n=300 if tier == "quick" else 4000))
     for lp in ("once", "run"):
@@ -415,6 +481,43 @@ def run(spec, ctx):
                        st.tuples(st.just("adv"), st.sampled_from([0.5, 1.0, 2.5, 0.8, 0.3])).map(list))
         strat = st.tuples(st.lists(op, min_size=1, max_size=200), st.sampled_from(["once", "run"])).map(lambda x: dict(k="ops", ntasks=4, ops=x[0], loop=x[1]))
         ctx.for_all(strat, spec["n"])
+    elif kind == "opsdeep":
+        # many tasks pending at once: deep heaps, removals from the middle, equal times
+        from hypothesis import strategies as st
+        nt = spec["ntasks"]
+        t = st.integers(0, nt - 1)
+        times = st.one_of(st.sampled_from([1.0, 2.0, 3.0, 5.0, 8.0, 13.0, 21.0]), st.integers(1, 60).map(float), st.integers(1, 400).map(lambda x: x / 8.0))
+        op = st.one_of(st.tuples(st.just("at"), t, times).map(list), st.tuples(st.just("at"), t, times).map(list),
+                       st.tuples(st.just("after"), t, st.sampled_from([0.0, 0.5, 1.0, 2.0, 7.0, 19.5])).map(list),
+                       st.tuples(st.just("sus"), t).map(list), st.tuples(st.just("sus"), t).map(list), st.tuples(st.just("res"), t).map(list),
+                       st.tuples(st.just("rearm"), t, st.lists(st.sampled_from([0.0, 0.5, 3.0, 11.0]), min_size=1, max_size=3)).map(list),
+                       st.tuples(st.just("adv"), st.sampled_from([0.5, 1.0, 2.5, 0.8, 0.3, 6.0])).map(list))
+        # start by filling the heap
+        fill = st.lists(st.tuples(st.just("at"), t, times).map(list), min_size=nt // 2, max_size=nt * 2)
+        strat = st.tuples(fill, st.lists(op, min_size=1, max_size=120), st.sampled_from(["once", "run"])).map(lambda x: dict(k="ops", ntasks=nt, ops=x[0] + x[1], loop=x[2]))
+        ctx.for_all(strat, spec["n"])
+    elif kind == "opsrearm":
+        # a task that re-installs itself from inside its firing, then is suspended / moved / resumed from outside
+        base = [["at", 0, 1.0], ["rearm", 0, [2.0]], ["adv", 1.5]]
+        outside = [[], [["sus", 0]], [["at", 0, 5.0]], [["after", 0, 0.5]], [["sus", 0], ["res", 0]], [["at", 0, 2.0]], [["at", 1, 3.0], ["sus", 0]],
+                   [["rearm", 0, [1.0, 1.0]]], [["sus", 0], ["at", 0, 9.0], ["rearm", 0, [0.0]]]]
+        for o1 in outside:
+            for o2 in outside:
+                for lp in ("once", "run"):
+                    ctx.check(dict(k="ops", ntasks=2, ops=base + o1 + [["adv", 1.0]] + o2 + [["adv", 3.0]], loop=lp))
+                    ctx.check(dict(k="ops", ntasks=2, ops=[["after", 0, 0.0], ["rearm", 0, [0.0, 1.0, 0.0]], ["adv", 0.2]] + o1 + [["adv", 2.0]] + o2, loop=lp))
+        ctx.mark_exhaustive("self re-arming task x 9 x 9 outside interventions")
+    elif kind == "rec2":
+        ivs = [100, 250, 1000.0 / 3, 500]
+        offs = [None, 0, 25, 33.3]
+        for i1 in ivs:
+            for o1 in (0, 25, 50):
+                for i2 in ivs + [None]:
+                    for o2 in offs:
+                        for run1 in (180, 1000, 1025):
+                            for lp in ("once",) if spec["tier"] == "quick" and run1 != 1000 else ("once", "run"):
+                                ctx.check(dict(k="rec2", phases=[[i1, o1, run1], [i2, o2, 1200], [None, None if o2 is None else 0, 700]], loop=lp))
+        ctx.mark_exhaustive("one recurring task installed three times: interval x offset (incl. None = keep and an explicit 0) grid")
     elif kind == "rec":
         intervals = [100, 250, 300, 1000.0 / 3, 700.7, 1000, 1500, 10, 333]
         for iv in intervals:
